@@ -17,11 +17,14 @@ is true merely because the model was totalised.
 The model mirrors what the code *does*:
   * `random_number` passes `(min, max + 1, step)` to `randrange`, whose lattice size `n` is
     computed with CPython's own formula (also for negative steps);
-  * `choice` returns `probability or when` — a weight of zero becomes `None` (D09);
-  * `datetime()` normalises with `dt.replace(tzinfo=…)`, which keeps the wall clock and
-    throws the written offset away (D08);
-  * Faker truncates both bounds to whole seconds and, when they are at most one second
-    apart, returns `start + random()` — with equal bounds the value lies after `end` (D23).
+  * `choice` returns the written probability as it is (also `0`); `when` only when no
+    probability was given (repaired by cfed176; before: `probability or when`, D09);
+  * `datetime()` converts a value carrying a non-zero written offset with `astimezone` and
+    relabels the others with `replace(tzinfo=…)` (repaired by f914bf1; before: always
+    `replace`, D08/D39 — still available as `TzCall.replace` for statements about the old code);
+  * `datetime_between` returns the start itself when both bounds are the same instant
+    (repaired by e0d1353, D37); otherwise Faker truncates both bounds to whole seconds and, when
+    they are at most one second apart, returns `start + random()` (D38 remains).
 -/
 namespace SnowModel.Bounded
 
@@ -73,9 +76,7 @@ inductive RawW where
   | str (n : Nat)      -- numeric string without percent sign
   deriving Repr, DecidableEq
 
-/-- Truthiness in `if probability:`.  `choice` is a `@lazy` function: a supplied
-    `probability` arrives as an unevaluated field-definition object, which is always truthy
-    (also for the literal `0`); only an absent one (`None`) is falsy. -/
+/-- The guard `if probability is not None:` — only an absent probability fails it. -/
 def RawW.truthy : RawW → Bool
   | .none => false
   | _ => true
@@ -87,18 +88,12 @@ def parseWeight : RawW → Option Nat
   | .pct n => some n
   | .str n => some n
 
-/-- `x or y` for an optional number: `None` and `0` are falsy. -/
-def pyOr (x y : Option Nat) : Option Nat :=
-  match x with
-  | some (n + 1) => some (n + 1)
-  | _ => y
-
 /-- First component of the tuple returned by `choice(pick, probability, when)`:
-    `if probability: probability = parse_weight_str(probability)` then
-    `probability or when`.  `when` is `None` inside `random_choice`. -/
+    `if probability is not None: return parse_weight_str(probability), pick` else
+    `return when, pick`.  A written probability is kept as it is (also `0`);
+    `when` is `None` inside `random_choice`. -/
 def choiceWeight (r : RawW) (when : Option Nat := none) : Option Nat :=
-  let p : Option Nat := if r.truthy then parseWeight r else none
-  pyOr p when
+  if r.truthy then parseWeight r else when
 
 /-- Weight of a `key: value` entry of the mapping form (`parse_weight_str` only). -/
 def kwWeight (r : RawW) : Option Nat := parseWeight r
@@ -215,17 +210,22 @@ def dateBetween (today : Int) (s e : DateSpec) (k : Nat) : DateOut :=
 
 /-! ### `datetime()` normalisation and `datetime_between` (microseconds since the epoch) -/
 
-/-- How `datetime()` attaches the target zone to the parsed value. -/
+/-- How `datetime()` attaches the target zone (UTC here) to the parsed value. -/
 inductive TzCall where
-  | replace        -- `dt.replace(tzinfo=tz)`: wall clock kept, written offset discarded
-  | astimezone     -- `dt.astimezone(tz)`: instant kept
+  | replace            -- `dt.replace(tzinfo=tz)`: wall clock kept, written offset discarded (old code)
+  | astimezone         -- `dt.astimezone(tz)`: instant kept
+  | astimezoneIfOffset -- `dt.astimezone(tz) if dt.utcoffset() else dt.replace(tzinfo=tz)` (f914bf1)
   deriving Repr, DecidableEq
 
 /-- The call kind found in the source (`Gen.BoundedFuncs.datetimeTzCall` is bridged to it). -/
-def codeTzCall : TzCall := .replace
+def codeTzCall : TzCall := .astimezoneIfOffset
 
 def tzCallOfString (s : String) : Option TzCall :=
-  if s = "replace" then some .replace else if s = "astimezone" then some .astimezone else none
+  if s = "replace" then some .replace
+  else if s = "astimezone" then some .astimezone
+  else if s = "if dt.utcoffset() and timezone is not None: astimezone else: replace" then
+    some .astimezoneIfOffset
+  else none
 
 inductive DTSpec where
   /-- a written date-time: naive wall clock in µs since the epoch and the written UTC
@@ -261,6 +261,8 @@ def normalise (call : TzCall) (c : Clock) (s : DTSpec) : Int :=
   match call with
   | .replace => (parseSpec c s).1
   | .astimezone => writtenInstant c s
+  | .astimezoneIfOffset =>
+    if (parseSpec c s).2 ≠ 0 then writtenInstant c s else (parseSpec c s).1
 
 inductive DTOut where
   | value (us : Int)
@@ -283,7 +285,9 @@ def fakerBetween (sUs eUs : Int) (d : Nat) : DTOut :=
 def datetimeBetweenWith (call : TzCall) (c : Clock) (s e : DTSpec) (d : Nat) : DTOut :=
   let S := normalise call c s
   let E := normalise call c e
-  if E < S then .orderError else fakerBetween S E d
+  if E < S then .orderError
+  else if E = S then .value S          -- equal bounds: that instant itself (e0d1353)
+  else fakerBetween S E d
 
 /-- `datetime_between` as the code has it. -/
 def datetimeBetween (c : Clock) (s e : DTSpec) (d : Nat) : DTOut :=
